@@ -100,6 +100,14 @@ func buildAssertion(r *RNG, s *AuthSpec) M {
 		cd.Origin = variant(r, s.Var, []string{"https://evil.example", "https://evil" + h, "https://" + h + ".evil.com", "https://evil.com/" + h, "https://" + h + "@evil.com", "", "https://evil.com?" + h, "https://evil.com#" + h, "null", "https://www.not" + h, "https://x" + h + ":443", "https://login.evil" + h, "https://attacker.test.", "https://" + h + ".", "https://login.attacker.test.:8443", "https://" + h + "..", "https://evil.example./", parentOrigin(h)})
 	}
 	cdj := cd.JSON(r)
+	if s.d("cd.malformed") {
+		// not one JSON object: trailing data after the object (the signature / hash covers exactly these bytes), truncated, another value
+		if r.Bool() {
+			cdj = append(append([]byte{}, cdj...), []byte(pick(r, []string{"x", "{}", " garbage", ",", "}", "\x00", "null", " []"}))...)
+		} else {
+			cdj = pick(r, [][]byte{[]byte("{"), []byte("[]"), nil, []byte(`{"type":1}`), cdj[:len(cdj)-1]})
+		}
+	}
 	ad := AuthDataSpec{RPIDHash: sha([]byte(hostOf(s.Origin))), Flags: s.Flags, Counter: s.Counter, Ext: s.Ext}
 	if s.RPID != nil {
 		ad.RPIDHash = sha(s.RPID)
